@@ -194,6 +194,9 @@ class Check:
     def add_report(self, rep, prefix=""):
         """Merges a harness report (common.rs Report)."""
         self.cov["evaluations"] += rep.get("evaluations", 0)
+        # distinct non-trivial cases as counted by the harness itself (distinct case keys)
+        self.cov["distinct_nontrivial"] += rep.get("distinct", 0)
+        self._measured = True
         for f in rep.get("failures", []):
             self.fail(prefix + f["key"], f["detail"])
         extra = rep.get("nfail", 0) - len(rep.get("failures", []))
